@@ -1,20 +1,27 @@
 /-
   Driver/CollD.lean — line protocol of the `coll` engine.
 
-    new <h> <kind> cap=<c> ids=<csv|->                     create vector `h` (kind: box fixed bump mut rev)
-    op <name> <h> [<h2>] <nat args…> [o=<outcomes>] [bombs=<csv>] [capin=<n>] [into=<h3>]
+    new <h> <kind> cap=<c> ids=<csv|-> [addr=<bytes> esize=<n> align=<n>]   create vector `h` (kind: box fixed bump mut rev)
+    peek <h>                                                the vector is re-read (sibling check)
+    op split_off <h> <start> <end> into=<h2> | op split_at <h> <at> into=<l>,<r> | op merge <a> <b> into=<m>
+       | op split_first <h> into=<f>,<r> | op split_last <h> into=<l>,<r>
+       answer `<h>:ids=…;len=…;cap=…;addr=<bytes|*> … exit=<ret|panic>` (the parts that exist afterwards)
+    op <name> <h> <nat args…> [o=<outcomes>] [bombs=<csv>] [capin=<n>] [s=<f|b…>] [fin=<d|k>] [src=<csv>]
+        (s: script of `next` / `next_back` calls on an iterator, fin: drop / keep_rest, src: ids of the appended slice)
     drop <h> [bombs=<csv>]                                  the owner is dropped
     outcomes ::= csv of `r<nat>` (returned value / id produced) and `p` (panic); `-` = empty
 
   Answers (compared verbatim with what the harness observed on the real types):
     new  → `ok`
     op   → `ids=<csv> len=<n> cap=<c> drops=<csv> esc=<csv> exit=<ret[:v]|panic|panic:drop> used=<k>`
-           (+ ` | <h2>: ids=… len=… cap=…` for operations with a second vector)
+           operations that consume the vector answer `gone drops=… esc=… exit=… used=…`
     drop → `drops=<csv> exit=<…>`
   A model fault (a hole was read, a live value overwritten, …) answers `fault <what>`; an unknown
   handle / operation `bad-op`.
 -/
 import BumpProof.Coll.Vecs
+import BumpProof.Coll.Iter
+import BumpProof.Coll.Split
 
 namespace Driver.CollD
 open Coll
@@ -23,10 +30,12 @@ structure Entry where
   name : String
   kind : Kind
   vec : Vec
+  addr : Nat := 0
   deriving Inhabited
 
 structure DState where
   vecs : List Entry := []
+  lay : Lay := { esize := 16, align := 8 }
   deriving Inhabited
 
 def csv (l : List Nat) : String := if l.isEmpty then "-" else ",".intercalate (l.map toString)
@@ -107,9 +116,93 @@ def runOp (env : Env) (v : Vec) (name : String) (args : List Nat) (o : List Outc
   | "resize", [n, id] => some (pack showUnit (resize env v n id o))
   | _, _ => none
 
+def showYields (l : List (Option Id)) : String :=
+  if l.isEmpty then "-" else "/".intercalate (l.map fun | none => "none" | some i => toString i)
+
+def parseScript (s : String) : Option (List Pull) :=
+  if s == "-" || s == "" then some []
+  else s.toList.mapM fun c => if c == 'f' then some Pull.front else if c == 'b' then some Pull.back else none
+
+/-- operations with an iterator script / a second operand / that consume the vector:
+    `some (result, consumed?)` -/
+def runSpecial (env : Env) (v : Vec) (name : String) (args : List Nat) (o : List Outcome) (rest : List String) :
+    Option (OpRes × Bool) :=
+  match name, args with
+  | "drain", [s, e] => do
+    let script ← parseScript ((kvOf rest "s").getD "-")
+    let fin ← match (kvOf rest "fin").getD "d" with | "d" => some Fin.drop | "k" => some Fin.keepRest | _ => none
+    pure ((pack showYields (drain env.bombs v s e script fin)).map (fun (a, b, _) => (a, b, o)), false)
+  | "extract_if", [calls] => some (pack csv (extractIf v calls o), false)
+  | "into_iter", [] => do
+    let script ← parseScript ((kvOf rest "s").getD "-")
+    pure ((pack showYields (intoIter env.bombs v script)).map (fun (a, b, _) => (a, b, o)), true)
+  | "map_in_place", [] =>
+    let r := mapInPlace env.bombs v o
+    let consumed := match r with | .ok out => (match out.exit with | .panic _ => true | _ => false) | _ => false
+    some (pack showUnit r, consumed)
+  | "append", [] => do
+    let src ← (kvOf rest "src").bind parseCsv
+    let other : Vec := { slots := I src, len := src.length }
+    let r : OpRes := match append env v other with
+      | .error f => .error f
+      | .ok (out, other') =>
+        -- the owned slice that was passed in is gone after the call: what it dropped is part of the delta
+        .ok ({ out.vec with dropLog := out.vec.dropLog ++ other'.dropLog }, showExit showUnit out.exit, o)
+    pure (r, false)
+  | _, _ => none
+
+def showPart (name : String) (p : Part) : String :=
+  let a := if p.vec.cap == 0 then "*" else toString p.addr
+  s!"{name}:ids={csv (idsOf (p.vec.slots.take p.vec.len))};len={p.vec.len};cap={p.vec.cap};addr={a}"
+
+def partOf (e : Entry) : Part := { vec := e.vec, addr := e.addr }
+
+def putPart (d : DState) (name : String) (k : Kind) (p : Part) : DState :=
+  put d { name := name, kind := k, vec := clearLogs p.vec, addr := p.addr }
+
+/-- splitting / merging operations (C16) -/
+def handleSplit (d : DState) (name h : String) (rest : List String) : Option (DState × String) :=
+  let pos := (rest.filter (fun t => !(t.contains '='))).mapM (·.toNat?)
+  let into := ((kvOf rest "into").getD "").splitOn ","
+  match name, find d h, pos, into with
+  | "split_off", some e, some [s, en], [b] =>
+    match splitOff d.lay (partOf e) s en with
+    | none => some (d, s!"{showPart h (partOf e)} exit=panic")
+    | some (self', other) =>
+      some (putPart (putPart d h e.kind self') b e.kind other, s!"{showPart h self'} {showPart b other} exit=ret")
+  | "split_at", some e, some [at_], [l, r] =>
+    match splitAt d.lay (partOf e) at_ with
+    | none => some (d, s!"{showPart h (partOf e)} exit=panic")
+    | some (pl, pr) => some (putPart (putPart (del d h) l e.kind pl) r e.kind pr, s!"{showPart l pl} {showPart r pr} exit=ret")
+  | "split_first", some e, some [], [f, r] =>
+    match splitFirst d.lay (partOf e) with
+    | none => some (del d h, "exit=ret:none")
+    | some (pf, pr) => some (putPart (putPart (del d h) f e.kind pf) r e.kind pr, s!"{showPart f pf} {showPart r pr} exit=ret")
+  | "split_last", some e, some [], [l, r] =>
+    match splitLast d.lay (partOf e) with
+    | none => some (del d h, "exit=ret:none")
+    | some (pl, pr) => some (putPart (putPart (del d h) l e.kind pl) r e.kind pr, s!"{showPart l pl} {showPart r pr} exit=ret")
+  | "merge", some e, _, [m] =>
+    match rest.filter (fun t => !(t.contains '=')) with
+    | [h2] =>
+      match find d h2 with
+      | none => none
+      | some e2 =>
+        match merge d.lay (partOf e) (partOf e2) with
+        -- a rejected merge unwinds: both boxes are dropped by the unwind
+        | none => some (del (del d h) h2, s!"drops={csv (idsOf (e.vec.slots.take e.vec.len) ++ idsOf (e2.vec.slots.take e2.vec.len))} exit=panic")
+        | some pm => some (putPart (del (del d h) h2) m e.kind pm, s!"{showPart m pm} exit=ret")
+    | _ => none
+  | _, _, _, _ => none
+
 def handleOp (d : DState) (toks : List String) : DState × String :=
   match toks with
   | name :: h :: rest =>
+    if name == "split_off" || name == "split_at" || name == "merge" || name == "split_first" || name == "split_last" then
+      match handleSplit d name h rest with
+      | some r => r
+      | none => (d, "bad-op split")
+    else
     match find d h with
     | none => (d, "bad-op unknown-handle")
     | some e =>
@@ -118,6 +211,14 @@ def handleOp (d : DState) (toks : List String) : DState × String :=
       | some args, some o, some bombs =>
         let capIn := ((kvOf rest "capin").bind (·.toNat?)).getD 0
         let env : Env := { bombs := bombs, kind := e.kind, capIn := capIn }
+        match runSpecial env (clearLogs e.vec) name args o rest with
+        | some (.error f, _) => (d, showFault f)
+        | some (.ok (v, exit, restO), true) =>
+          (del d h, s!"gone drops={csv v.dropLog} esc={csv v.escaped} exit={exit} used={o.length - restO.length}")
+        | some (.ok (v, exit, restO), false) =>
+          let v := normalise e.kind v
+          (put d { e with vec := clearLogs v }, report v exit (o.length - restO.length))
+        | none =>
         match runOp env (clearLogs e.vec) name args o with
         | none => (d, "bad-op unknown-op")
         | some (.error f) => (d, showFault f)
@@ -133,7 +234,11 @@ def handle (d : DState) (toks : List String) : DState × String :=
     match parseKind kind, (kvOf rest "cap").bind (·.toNat?), (kvOf rest "ids").bind parseCsv with
     | some k, some cap, some ids =>
       if ids.length ≤ cap then
-        (put d { name := h, kind := k, vec := { slots := I ids ++ H (cap - ids.length), len := ids.length } }, "ok")
+        let addr := ((kvOf rest "addr").bind (·.toNat?)).getD 0
+        let lay : Lay := { esize := ((kvOf rest "esize").bind (·.toNat?)).getD d.lay.esize,
+                           align := ((kvOf rest "align").bind (·.toNat?)).getD d.lay.align }
+        (put { d with lay := lay } { name := h, kind := k, addr := addr,
+                                      vec := { slots := I ids ++ H (cap - ids.length), len := ids.length } }, "ok")
       else (d, "bad-op cap<len")
     | _, _, _ => (d, "bad-op unparsable")
   | "op" :: rest => handleOp d rest
@@ -144,6 +249,10 @@ def handle (d : DState) (toks : List String) : DState × String :=
       | .error f => (d, showFault f)
       | .ok r => (del d h, s!"drops={csv r.vec.dropLog} exit={showExit showUnit r.exit}")
     | _, _ => (d, "bad-op")
+  | ["peek", h] =>
+    match find d h with
+    | some e => (d, showVec e.vec)
+    | none => (d, "bad-op unknown-handle")
   | "reset" :: _ => ({}, "ok")
   | _ => (d, "bad-line")
 
